@@ -254,8 +254,8 @@ def _succs(t):
     return []
 
 
-def _const_of(rv, adts):
-    """('int', v) for a constant, ('variant', discr) for an enum literal, else None"""
+def _const_of(rv, adts, env=None):
+    """('int', v) for a constant, ('variant', discr[, constant of the single payload]) for an enum literal, else None"""
     if rv.get('k') == 'use' and rv['op'].get('k') == 'c' and isinstance(rv['op'].get('v'), int):
         return ('int', rv['op']['v'])
     if rv.get('k') == 'agg' and rv.get('ak') == 'adt' and 'vi' in rv:
@@ -264,7 +264,23 @@ def _const_of(rv, adts):
             d = int(a['variants'][rv['vi']]['discr']) if a else rv['vi']
         except Exception:
             d = rv['vi']
+        ops = rv.get('ops') or []
+        if env is not None and len(ops) == 1 and ops[0].get('k') in ('cp', 'mv') and not ops[0]['pl'].get('p') and ops[0]['pl']['l'] in env:
+            return ('variant', d, env[ops[0]['pl']['l']])
         return ('variant', d)
+    return None
+
+
+def _payload_of(rv, env):
+    """constant carried by `(x as V).0` when x is a known literal with a known payload"""
+    if rv.get('k') != 'use' or rv['op'].get('k') not in ('cp', 'mv'):
+        return None
+    pl = rv['op']['pl']
+    p = pl.get('p') or []
+    if len(p) == 2 and isinstance(p[0], dict) and 'dc' in p[0] and isinstance(p[1], dict) and p[1].get('f') == 0 and pl['l'] in env:
+        v = env[pl['l']]
+        if v[0] == 'variant' and len(v) > 2:
+            return v[2]
     return None
 
 
@@ -303,7 +319,7 @@ def thread_jumps(body, adts, max_rounds=6, max_new=400):
                 pl = st['pl']
                 if pl.get('p'):
                     continue
-                c = _const_of(st['rv'], adts)
+                c = _const_of(st['rv'], adts, known) or _payload_of(st['rv'], known)
                 if c is not None:
                     known[pl['l']] = c
                 elif st['rv'].get('k') == 'use' and st['rv']['op'].get('k') in ('cp', 'mv') and not st['rv']['op']['pl'].get('p') and st['rv']['op']['pl']['l'] in known:
@@ -332,7 +348,7 @@ def thread_jumps(body, adts, max_rounds=6, max_new=400):
                     elif rv.get('k') == 'discr' and not rv['pl'].get('p') and rv['pl']['l'] in env and env[rv['pl']['l']][0] == 'variant':
                         env[pl['l']] = ('int', env[rv['pl']['l']][1])
                     else:
-                        c = _const_of(rv, adts)
+                        c = _const_of(rv, adts, env) or _payload_of(rv, env)
                         if c is not None:
                             env[pl['l']] = c
                         else:
@@ -356,10 +372,11 @@ def thread_jumps(body, adts, max_rounds=6, max_new=400):
                     aty = (t.get('aty') or [''])[0]
                     if a0.get('k') in ('cp', 'mv') and not a0['pl'].get('p') and a0['pl']['l'] in env and env[a0['pl']['l']][0] == 'variant':
                         v_ = env[a0['pl']['l']][1]
+                        in_ = env[a0['pl']['l']][2:] 
                         if aty.startswith('core::result::Result<'):
-                            env[t['dst']['l']] = ('variant', 0 if v_ == 0 else 1)
+                            env[t['dst']['l']] = ('variant', 0 if v_ == 0 else 1) + (tuple(in_) if v_ == 0 else ())
                         elif aty.startswith('core::option::Option<'):
-                            env[t['dst']['l']] = ('variant', 0 if v_ == 1 else 1)
+                            env[t['dst']['l']] = ('variant', 0 if v_ == 1 else 1) + (tuple(in_) if v_ == 1 else ())
                         else:
                             break
                         path.append(cur)
